@@ -420,6 +420,7 @@ def check_property(prop, tier, seed, replay_path=None, only=None, keep=False, ve
     violations = []       # (harness, params, what, replay_path, confirmed, kind)
     known_hits = []       # finding ids still reproducing
     ub_candidates = []
+    unconfirmed = []
     inconclusive = []
     exit_code = 0
     try:
@@ -522,8 +523,15 @@ def check_property(prop, tier, seed, replay_path=None, only=None, keep=False, ve
                 if fid not in [k for k, _ in known_hits]:
                     known_hits.append((fid, {'case': params, 'what': what, 'replay': rp, 'confirmed_on_real_build': conf, 'replay_kind': kind}))
                 continue
-            violations.append({'harness': h.name, 'case': params, 'failed': [f[2] for f in hard[:5]], 'what': what, 'replay': rp,
-                               'confirmed_on_real_build': conf, 'replay_kind': kind, 'replay_output': text[-600:], 'kinds': sorted(kinds)})
+            entry = {'harness': h.name, 'case': params, 'failed': [f[2] for f in hard[:5]], 'what': what, 'replay': rp,
+                     'confirmed_on_real_build': conf, 'replay_kind': kind, 'replay_output': text[-600:], 'kinds': sorted(kinds)}
+            if conf:
+                violations.append(entry)
+            else:
+                # a counterexample that does not reproduce against the real build means the encoding, a stub or the harness is
+                # wrong: never reported as a violation of the property, but the run is not a pass either
+                unconfirmed.append(entry)
+                inconclusive.append('%s[%s]: solver counterexample did not reproduce on the real build (%s): %s; replay=%s' % (h.name, case_key(params), kind, what[:300], rp))
         for h in hs:
             ph = per_h.get(h.name, {})
             ev['harnesses'].append({'name': h.name, 'unit': h.unit.name, 'source': h.src, 'description': h.description, 'bounds': h.bounds,
@@ -585,6 +593,7 @@ def check_property(prop, tier, seed, replay_path=None, only=None, keep=False, ve
                 'known_findings_reproduced': [{'id': k, **i} for k, i in known_hits],
                 'ub_candidates': ub_candidates[:20],
                 'violations': violations[:20],
+                'unconfirmed_counterexamples': unconfirmed[:20],
                 'inconclusive': inconclusive[:20] + diff_problems[:10],
                 'samples': ev['samples'] or [{'note': 'no successful case'}],
                 'checker_cmd': 'cbmc <case>.gb --function harness --unwind N ' + ' '.join(CBMC_FLAGS),
